@@ -495,6 +495,38 @@ impl Check for C06 {
                 );
             }
         }
+        // ---- an unauthorised "twin" of an operation the replica already holds (same entry and causal links, signed by
+        //      a key that may not write) arriving inside another replica's state: it must not enter through a merge
+        if !open {
+            let holder = replicas.iter().find(|r| !r.ops().is_empty()).cloned();
+            if let Some(a) = holder {
+                let held = a.ops().iter().next().cloned().expect("nonempty");
+                let mut raw = gen::RawOp::from_op(&held);
+                let twin = gen::reg_op(raw.address, raw.crdt_op.value.clone(), raw.crdt_op.children.clone(), &outsider);
+                raw = gen::RawOp::from_op(&twin);
+                let twin = raw.to_op();
+                if twin != held && gen::RawOp::from_op(&twin).crdt_op.hash() == gen::RawOp::from_op(&held).crdt_op.hash() {
+                    let mut ops: BTreeSet<RegisterOp> = if c.cx.rng.gen_bool(0.5) { a.ops().clone() } else { BTreeSet::new() };
+                    ops.insert(twin.clone());
+                    let sig = owner.sign(base.base_register().bytes().expect("bytes"));
+                    let forged_state = SignedRegister::new(base.base_register().clone(), sig, ops);
+                    let mut target = a.clone();
+                    let before = target.ops().clone();
+                    c.cx.eval();
+                    c.cx.count("merges:unauthorised-twin-of-a-held-op");
+                    let res = target.verified_merge(&forged_state);
+                    if target.ops().contains(&twin) || res.is_ok() {
+                        c.cx.violation(
+                            "inadmissible-op-entered-through-merge:unauthorised-twin-of-a-held-op",
+                            format!("a state carrying a copy of a held operation signed by a key without write permission was merged ({res:?}); the copy is now in the replica: {}", target.ops().contains(&twin)),
+                            json!({"perms": c.perms}),
+                        );
+                    } else if *target.ops() != before {
+                        c.cx.violation("refused-merge-changed-replica", "a refused verified_merge changed the operation set".to_string(), json!({"perms": c.perms}));
+                    }
+                }
+            }
+        }
         // ---- different base register
         {
             let mut other = other_base.clone();
